@@ -132,7 +132,7 @@ def gen_roundtrip(ctx):
     ctx.exhaustive_parts["A.boundary_pairs_triples_types"] = True
     # random lists
     rng = ctx.rng("A.random")
-    n = ctx.pick(4000, 80000) // ctx.nshards
+    n = ctx.pick(4000, 300000) // ctx.nshards
     for k in range(n):
         items = []
         last = None
@@ -216,7 +216,7 @@ def gen_totality(ctx):
                 yield bytes(tup), "decode_bytes", f"alphabet-len{ln}"
     ctx.exhaustive_parts[f"B.all_strings_len<=2_and_alphabet_len<={maxlen}"] = True
     rng = ctx.rng("B.random")
-    for k in range(ctx.pick(60000, 1500000) // ctx.nshards):
+    for k in range(ctx.pick(60000, 6000000) // ctx.nshards):
         ln = rng.choice([3, 4, 5, 8, 16, 40, 300, 600])
         b = bytearray(rng.randbytes(ln))
         if rng.random() < 0.7:
@@ -227,7 +227,7 @@ def gen_totality(ctx):
                 i += 2 + b[i]
         yield bytes(b), rng.choice(["decode_bytes", "decode_bytearray"]), "random"
     # mutants of valid encodings
-    for k in range(ctx.pick(300, 4000) // ctx.nshards):
+    for k in range(ctx.pick(300, 20000) // ctx.nshards):
         items = []
         last = None
         for _ in range(rng.randint(1, 5)):
@@ -290,7 +290,7 @@ def check_filter(ctx, items, expected, origin) -> None:
 def gen_filter(ctx):
     rng = ctx.rng("C")
     types = [0, 1, 2, 3, 4, 5, 6, 7, 10, 14]
-    for k in range(ctx.pick(4000, 60000) // ctx.nshards):
+    for k in range(ctx.pick(4000, 400000) // ctx.nshards):
         items = []
         last = None
         for _ in range(rng.randint(1, 6)):
